@@ -189,8 +189,9 @@ def user_state(k, model=None):
         if model is not None and model.pick.get(i, UNKNOWN) is not UNKNOWN:
             sel = model.pick[i]
             st["from_model"] += 1
-        ys = [m.name for m in c.syms if m._user_value == 2 and m.name != sel]
-        ns = [m.name for m in c.syms if m._user_value == 0 and m.name != sel]
+        members = list(dict.fromkeys(c.syms))
+        ys = [m.name for m in members if m._user_value == 2 and m.name != sel]
+        ns = [m.name for m in members if m._user_value == 0 and m.name != sel]
         st["choices"].append({"i": i, "sel": sel, "ys": ys, "ns": ns, "mode": c._user_value})
     return st
 
